@@ -110,32 +110,11 @@ func checkC19(c *core.Ctx) {
 			})
 			// ---- R3 errors are returned, not printed
 			if fd.Name.Name == "main" {
-				src := strings.Join(strings.Fields(srcOf(p, fd.Body)), " ")
-				ok := strings.Contains(src, "err := run() if err != nil {") && strings.Contains(src, "os.Exit(1) }")
-				tail := src[strings.LastIndex(src, "}")-40:]
-				_ = tail
-				c.Check("R3", name+" exits 1 exactly when run() failed", p.Pos(fd.Pos()), ok && exitOnlyOnError(fd), "main must call os.Exit(1) on the err != nil arm of run() and nowhere else")
+				c.Check("R3", name+" exits 1 exactly when run() failed", p.Pos(fd.Pos()), mainExitsOnRunError(info, fd) && exitOnlyOnError(info, fd),
+					"main must call os.Exit with a non-zero status on the arm where the error of run() is not nil, and nowhere else")
 			}
 			if funcReturnsError(pk, fd) {
-				// an `if err != nil` arm that neither returns nor continues swallows the error
-				ast.Inspect(fd.Body, func(n ast.Node) bool {
-					ifs, ok := n.(*ast.IfStmt)
-					if !ok {
-						return true
-					}
-					if x, ok := nilTestExpr(ifs.Cond); !ok || x != "err" {
-						return true
-					}
-					if !endsInReturn(ifs.Body) {
-						c.Check("R3", name+" returns the error it detected", p.Pos(ifs.Pos()), false, "an err != nil arm does not end in a return: the failure is swallowed and the tool exits 0")
-					} else {
-						r := ifs.Body.List[len(ifs.Body.List)-1].(*ast.ReturnStmt)
-						if lastResultIsNil(r) {
-							c.Check("R3", name+" returns the error it detected", p.Pos(ifs.Pos()), false, "an err != nil arm returns nil")
-						}
-					}
-					return true
-				})
+				errorArmsReturn(c, p, info, fd, name)
 			}
 		}
 		c.Check("R3", short+": every detected error is returned (scan complete)", pk.PkgPath, true, "")
@@ -207,16 +186,190 @@ func isOsFile(t types.Type) bool {
 	return t != nil && strings.HasSuffix(t.String(), "os.File")
 }
 
+// errNilTest matches `v != nil` where v is a variable of type error.
+func errNilTest(info *types.Info, e ast.Expr) (types.Object, bool) {
+	b, ok := ast.Unparen(e).(*ast.BinaryExpr)
+	if !ok || b.Op != token.NEQ || wire.Canon(b.Y) != "nil" {
+		return nil, false
+	}
+	id, ok := ast.Unparen(b.X).(*ast.Ident)
+	if !ok {
+		return nil, false
+	}
+	obj := info.ObjectOf(id)
+	if obj == nil || !isErrorType(obj.Type()) {
+		return nil, false
+	}
+	return obj, true
+}
+
+// errorArmsReturn: every `if v != nil` arm on an error variable ends in a
+// return of a non-nil error. The one other accepted idiom is the accumulating
+// one (gofmt style): the arm stores a non-nil value into a flag/first-error
+// variable that is written nowhere outside such arms (it can never be cleared
+// or overwritten by a later success) and the function later returns an error
+// under a test of that variable.
+func errorArmsReturn(c *core.Ctx, p *load.Prog, info *types.Info, fd *ast.FuncDecl, name string) {
+	// variables assigned only inside error arms
+	type span struct{ from, to token.Pos }
+	var arms []span
+	ast.Inspect(fd.Body, func(n ast.Node) bool {
+		if ifs, ok := n.(*ast.IfStmt); ok {
+			if _, is := errNilTest(info, ifs.Cond); is {
+				arms = append(arms, span{ifs.Body.Pos(), ifs.Body.End()})
+			}
+		}
+		return true
+	})
+	inArm := func(pos token.Pos) bool {
+		for _, a := range arms {
+			if a.from <= pos && pos < a.to {
+				return true
+			}
+		}
+		return false
+	}
+	sticky := func(obj types.Object) bool {
+		ok := true
+		ast.Inspect(fd.Body, func(n ast.Node) bool {
+			switch x := n.(type) {
+			case *ast.AssignStmt:
+				for _, l := range x.Lhs {
+					if id, is := l.(*ast.Ident); is && info.ObjectOf(id) == obj && x.Tok != token.DEFINE && !inArm(x.Pos()) {
+						ok = false
+					}
+				}
+			case *ast.IncDecStmt:
+				if id, is := x.X.(*ast.Ident); is && info.ObjectOf(id) == obj && !inArm(x.Pos()) {
+					ok = false
+				}
+			}
+			return true
+		})
+		return ok
+	}
+	// does the function return a non-nil error under a test of obj after pos?
+	reportedLater := func(obj types.Object, after token.Pos) bool {
+		found := false
+		for _, st := range fd.Body.List {
+			ifs, ok := st.(*ast.IfStmt)
+			if !ok || ifs.Pos() < after {
+				continue
+			}
+			mentions := false
+			ast.Inspect(ifs.Cond, func(n ast.Node) bool {
+				if id, is := n.(*ast.Ident); is && info.ObjectOf(id) == obj {
+					mentions = true
+				}
+				return true
+			})
+			if mentions && endsInReturn(ifs.Body) && !lastResultIsNil(ifs.Body.List[len(ifs.Body.List)-1].(*ast.ReturnStmt)) {
+				found = true
+			}
+		}
+		return found
+	}
+	ast.Inspect(fd.Body, func(n ast.Node) bool {
+		ifs, ok := n.(*ast.IfStmt)
+		if !ok {
+			return true
+		}
+		v, ok := errNilTest(info, ifs.Cond)
+		if !ok {
+			return true
+		}
+		if endsInReturn(ifs.Body) {
+			r := ifs.Body.List[len(ifs.Body.List)-1].(*ast.ReturnStmt)
+			if lastResultIsNil(r) {
+				c.Check("R3", name+" returns the error it detected", p.Pos(ifs.Pos()), false, "the arm for "+v.Name()+" != nil returns nil")
+			}
+			return true
+		}
+		// accumulating idiom
+		accepted := false
+		for _, st := range ifs.Body.List {
+			as, is := st.(*ast.AssignStmt)
+			if !is || len(as.Lhs) != 1 || len(as.Rhs) != 1 || as.Tok == token.DEFINE {
+				continue
+			}
+			id, is := as.Lhs[0].(*ast.Ident)
+			if !is {
+				continue
+			}
+			flag := info.ObjectOf(id)
+			if flag == nil {
+				continue
+			}
+			rhs := ast.Unparen(as.Rhs[0])
+			nonZero := false
+			if tv := info.Types[rhs]; tv.Value != nil {
+				nonZero = tv.Value.String() != "false" && tv.Value.String() != "0"
+			} else if rid, is := rhs.(*ast.Ident); is && info.ObjectOf(rid) == v {
+				nonZero = true // the non-nil error itself
+			}
+			if nonZero && flag != v && sticky(flag) && reportedLater(flag, ifs.End()) {
+				accepted = true
+			}
+		}
+		c.Check("R3", name+" returns the error it detected", p.Pos(ifs.Pos()), accepted,
+			"the arm for "+v.Name()+" != nil neither returns the failure nor records it in a variable that is only ever set on failure and is turned into an error return later: the failure is printed at most, can be overwritten by the next file, and the tool exits 0")
+		return true
+	})
+}
+
+// mainExitsOnRunError: `v := run()` followed by an `if v != nil` arm that
+// calls os.Exit with a non-zero constant.
+func mainExitsOnRunError(info *types.Info, fd *ast.FuncDecl) bool {
+	var runErr types.Object
+	ok := false
+	for _, st := range fd.Body.List {
+		switch x := st.(type) {
+		case *ast.AssignStmt:
+			if len(x.Lhs) == 1 && len(x.Rhs) == 1 {
+				if call, is := x.Rhs[0].(*ast.CallExpr); is && wire.Canon(call.Fun) == "run" {
+					if id, is := x.Lhs[0].(*ast.Ident); is {
+						runErr = info.ObjectOf(id)
+					}
+				}
+			}
+		case *ast.IfStmt:
+			// also `if v := run(); v != nil`
+			if as, is := x.Init.(*ast.AssignStmt); is && len(as.Lhs) == 1 && len(as.Rhs) == 1 {
+				if call, is := as.Rhs[0].(*ast.CallExpr); is && wire.Canon(call.Fun) == "run" {
+					if id, is := as.Lhs[0].(*ast.Ident); is {
+						runErr = info.ObjectOf(id)
+					}
+				}
+			}
+			if v, is := errNilTest(info, x.Cond); is && v == runErr && runErr != nil {
+				if containsCall(x.Body, func(call *ast.CallExpr) bool {
+					if wire.Canon(call.Fun) != "os.Exit" || len(call.Args) != 1 {
+						return false
+					}
+					tv := info.Types[call.Args[0]]
+					return tv.Value != nil && tv.Value.String() != "0"
+				}) {
+					ok = true
+				}
+			}
+		}
+	}
+	return ok
+}
+
 // exitOnlyOnError: os.Exit with a non-zero constant appears only inside an
-// `if err != nil` arm.
-func exitOnlyOnError(fd *ast.FuncDecl) bool {
+// arm that tests an error variable for != nil, and os.Exit(0) never there.
+func exitOnlyOnError(info *types.Info, fd *ast.FuncDecl) bool {
 	ok := true
 	var walk func(n ast.Node, inErrArm bool)
 	walk = func(n ast.Node, inErrArm bool) {
 		ast.Inspect(n, func(m ast.Node) bool {
 			switch x := m.(type) {
 			case *ast.IfStmt:
-				if v, is := nilTestExpr(x.Cond); is && v == "err" {
+				if _, is := errNilTest(info, x.Cond); is {
+					if x.Init != nil {
+						walk(x.Init, inErrArm)
+					}
 					walk(x.Body, true)
 					if x.Else != nil {
 						walk(x.Else, inErrArm)
@@ -225,7 +378,8 @@ func exitOnlyOnError(fd *ast.FuncDecl) bool {
 				}
 			case *ast.CallExpr:
 				if wire.Canon(x.Fun) == "os.Exit" && len(x.Args) == 1 {
-					zero := wire.Canon(x.Args[0]) == "0"
+					tv := info.Types[x.Args[0]]
+					zero := tv.Value != nil && tv.Value.String() == "0"
 					if zero == inErrArm {
 						ok = false
 					}
